@@ -309,11 +309,12 @@ const (
 	TDLeafRSA1024
 	TDLeafP224
 	TDCANoKU
+	TDCAEKUExcludes // the CA's own extended key usage excludes time stamping (rejected by crypto/x509 path validation)
 	nTSADefects
 )
 
 var tsaDefectNames = []string{"none", "leaf_expired", "leaf_not_yet_valid", "eku_non_critical", "eku_extra_codesigning", "eku_extra_unknown_oid", "eku_absent",
 	"ca_without_certsign", "path_length_too_small", "untrusted_root",
-	"leaf_keyusage_extra_bits", "leaf_keyusage_absent", "leaf_without_digital_signature", "leaf_is_ca", "leaf_rsa1024", "leaf_p224", "ca_without_keyusage_ext"}
+	"leaf_keyusage_extra_bits", "leaf_keyusage_absent", "leaf_without_digital_signature", "leaf_is_ca", "leaf_rsa1024", "leaf_p224", "ca_without_keyusage_ext", "ca_eku_excludes_timestamping"}
 
-func tsaDefectOnlyCore(d int) bool { return d >= TDLeafKUExtra }
+func tsaDefectOnlyCore(d int) bool { return d >= TDLeafKUExtra && d != TDCAEKUExcludes }
